@@ -595,7 +595,9 @@ class PLS():
         if nlv_ is None:
             p_y = mx.matrix_to_list(p_y_)
         else:
-            p_y = [[row[nlv_-1]] for row in mx.matrix_to_list(p_y_)]
+            # the table holds, latent variable after latent variable, one column per response
+            n_y = self.model.contents.yloadings.contents.row
+            p_y = [row[n_y*(nlv_-1):n_y*nlv_] for row in mx.matrix_to_list(p_y_)]
         mx.del_matrix(x_input_)
         del x_input_
         mx.del_matrix(p_scores_)
